@@ -203,6 +203,10 @@ def run_case(case):
             toml.append("no_such_option_xyz = 1")
         if case["fmt"] == "md":
             text = "---\n" + "\n".join(meta) + "\n---\n\n" + body
+            if zlib.crc32(json.dumps([opt, case["file"], case["cfg"], case["cli"]]).encode()) % 2 == 0:
+                # an fpm.toml of the package manager that other tools use, too, but that says nothing to FORD: the project file rules
+                with open(os.path.join(proj, "fpm.toml"), "w") as f:
+                    f.write('name = "c15"\nversion = "0.1.0"\n\n[extra.fortitude.check]\nselect = ["C001"]\n')
         else:
             text = body
             with open(os.path.join(proj, "fpm.toml"), "w") as f:
@@ -342,7 +346,7 @@ def run(tier, seed, ck: Check):
     ill = []
     for opt, cls in classes.items():
         if cls == "flag":
-            ill += [(opt, "md", "maybe"), (opt, "toml", "maybe")]
+            ill += [(opt, "md", "maybe"), (opt, "toml", "maybe"), (opt, "md", "tru"), (opt, "md", "f"), (opt, "md", "fals")]
         elif cls == "int":
             ill += [(opt, "md", "many"), (opt, "toml", "many")]
     for r_ in pool.pmap(run_illtyped, ill, chunksize=4):
